@@ -43,7 +43,7 @@ def floors(tier):
         "distinct": 30000,
         "classes": {f"kind:{k}": 2000 for k in PYOPS} | {"kind:BOOL": 60, "kind:EXC": 60, "operand:nan": 500,
                                                             "operand:int>2**53": 500, "operand:int>1e308": 300,
-                                                            "operand:partial": 1000, "operand:oneshot": 300},
+                                                            "operand:partial": 1000, "operand:oneshot": 300, "same-object-on-both-sides": 500},
     }
 
 
@@ -114,25 +114,27 @@ def _check_dists(ctx, t, group, kind, outcome, mech, case):
     return True
 
 
-def _one_compare(ctx, t, kind, an, bn):
+def _one_compare(ctx, t, kind, an, bn, same_object=False):
     from pynguin.instrumentation import PynguinCompare  # noqa: F401
 
     a1, b1 = V.fresh(an), V.fresh(bn)
-    if an == bn and kind in ("IS", "IS_NOT", "EQ", "NE", "IN", "NOT_IN") and False:
-        pass
+    if same_object:
+        b1 = a1  # the very same object on both sides (x == x, x != x, x < x ...)
     try:
         outcome = bool(PYOPS[kind](a1, b1))
         pyexc = None
     except Exception as e:  # noqa: BLE001
         outcome, pyexc = None, type(e).__name__
     a2, b2 = V.fresh(an), V.fresh(bn)
+    if same_object:
+        b2 = a2
     ident = False
     if kind in ("IS", "IS_NOT"):
         # identity needs the same objects on both sides of the oracle: reuse the pair
         a2, b2 = a1, b1
     ca, cb = V.vclass(an), V.vclass(bn)
     mech = _mech(kind, ca, cb, a2, b2)
-    case = {"kind": kind, "left": an, "right": bn}
+    case = {"kind": kind, "left": an, "right": bn, "same_object": same_object}
     t.init_trace()
     t.enable()
     try:
@@ -147,7 +149,10 @@ def _one_compare(ctx, t, kind, an, bn):
             classes.append(f"operand:{c}")
         if c.startswith("partial:"):
             classes.append("operand:partial")
-    ctx.ok(cls=set(classes), distinct=f"{kind}|{an}|{bn}" if pyexc is None else None)
+    if same_object:
+        classes.append("same-object-on-both-sides")
+        mech += ":same-object"
+    ctx.ok(cls=set(classes), distinct=f"{kind}|{an}|{bn}|{same_object}" if pyexc is None else None)
     if pyexc is not None:
         ctx.cls("python-raises")
         return
@@ -236,6 +241,8 @@ def run_chunk(spec, ctx):
         for kind in PYOPS:
             for an, bn in itertools.product(names, names):
                 _one_compare(ctx, t, kind, an, bn)
+                if an == bn:
+                    _one_compare(ctx, t, kind, an, bn, same_object=True)
                 if t.is_disabled():
                     ctx.anomaly("tracer-left-disabled-after-callback")
         ctx.sample({"kind": "LT", "left": "int2^53", "right": "int2^53+1"})
